@@ -102,6 +102,7 @@ class Engine:
         self.stats = {"feasible_calls": 0, "paths": 0}
         self.round_axioms = []
         self.list_repeat_hook = None
+        self.default_replay = None
         self.async_faults = []      # e.g. ["KeyboardInterrupt"]: injected before every statement outside `finally`
         self.globals_obj = None     # Ref of the heap object holding the mutable module globals of the function's module
 
@@ -111,6 +112,8 @@ class Engine:
             goal = z3.BoolVal(True)
         if goal is False:
             goal = z3.BoolVal(False)
+        if self.default_replay and not meta.get("replay"):
+            meta["replay"] = self.default_replay
         self.obligations.append(Obligation(f"{self.label}/{name}#{len(self.obligations)}", st.pc + self.round_axioms,
                                            goal, prop or self.prop, meta))
 
@@ -845,7 +848,11 @@ class Engine:
                     r = self.ev(e.body if side else e.orelse, s2)
                     pure = pure and len(r) == 1 and r[0][1] is s2 and m == self._mark()
                     got[side] = r
-                if pure and self._mergeable(got[True][0][0], got[False][0][0]):
+                vt_, vf_ = got[True][0][0] if got[True] else None, got[False][0][0] if got[False] else None
+                if pure and isinstance(vt_, (str, TS)) and isinstance(vf_, (str, TS)) and (vt_ == "" or vf_ == "") and not (vt_ == "" and vf_ == ""):
+                    # `X if c else ""` over terminal strings: one conditional piece instead of two paths
+                    res.append((TS([tstr.Cond(t, tstr.as_ts(vt_))]) if vf_ == "" else TS([tstr.Cond(z3.Not(t), tstr.as_ts(vf_))]), s))
+                elif pure and self._mergeable(got[True][0][0], got[False][0][0]):
                     res.append((If(t, as_arith(got[True][0][0]) if not isinstance(got[True][0][0], (bool, tuple)) else got[True][0][0],
                                    as_arith(got[False][0][0]) if not isinstance(got[False][0][0], (bool, tuple)) else got[False][0][0]), s))
                 else:
